@@ -5,10 +5,8 @@
    Model/ExprPrint.v (to_python), Model/ExprAst.v (ASTs with explicit parentheses, unparse, strip) and
    Model/ExprRoundtrip.v (printable, the guards).  They are tied to /repo by correspondence on every run.
 
-   FULL STATEMENT of the first half -- "for every tree t: parse_tree c dd t = Ok e -> py_meaning t = Some v ->
-   eval e = Some v" -- is FALSE for the code as it is (comparison chains): C13_parse_meaning_refuted.  It is proved
-   for every tree without a chain, and with no guard on the tree for a walker that rejects chains
-   (reject_chains c = true: the proposed fix; the check reads which of the two the running code is).
+   First half (meaning): proved at full strength for the walker as it is since 1b8c7b2 (comparison chains are
+   rejected; before that fix 'a < b < c' was read as (a < b) < c -- the regression witness is C13_chain_regression).
 
    FULL STATEMENT of the second half -- "parse a text, print the result, parse again: an equal tree" -- is FALSE
    for the code as it is (the five theorems C13_print_parse_roundtrip_refuted_...); it is proved under the guards src_ok (NAME tokens
@@ -27,29 +25,27 @@ Local Open Scope list_scope.
 (* for EVERY lark tree, every set of known names, every column set, every interpretation fsem of the method
    names and every operand assignment: if the walker accepts the tree and Python's reading of the tree has a
    value on the common domain, the expression object evaluates to exactly that value *)
-Theorem C13_parse_meaning_partial :
+Theorem C13_parse_meaning :
   forall (c : cfg) (dd : list string) (fsem : fsem_t) (en : env) (t : ltree) (e : expr) (v : pval),
-  reject_chains c = true \/ no_chain t = true ->
   parse_tree c dd t = Ok e -> py_meaning fsem en t = Some v -> eval fsem en e = Some v.
 Proof. exact parse_tree_meaning. Qed.
-Print Assumptions C13_parse_meaning_partial.
+Print Assumptions C13_parse_meaning.
 
 (* the same for the walker proper (sub-trees that are lists / dicts included) *)
-Theorem C13_walk_meaning_partial :
+Theorem C13_walk_meaning :
   forall (c : cfg) (dd : list string) (fsem : fsem_t) (en : env) (t : ltree) (e : expr) (v : pval),
-  reject_chains c = true \/ no_chain t = true ->
   walk c dd t = Ok e -> py_meaning fsem en t = Some v -> eval fsem en e = Some v.
 Proof. exact walk_meaning. Qed.
-Print Assumptions C13_walk_meaning_partial.
+Print Assumptions C13_walk_meaning.
 
-(* 'a < b < c' with a = -3, b = -3, c = 5: Python says False, the tree built by the walker says True *)
-Theorem C13_parse_meaning_refuted :
-  reject_chains chain_cfg = false /\ lark_of chain_toks = Some chain_tree /\
-  parse_tree chain_cfg ["a"; "b"; "c"] chain_tree = Ok chain_expr /\
+(* regression of 1b8c7b2: 'a < b < c' is in the grammar; with a = -3, b = -3, c = 5 Python says False, the
+   left-nested object (a < b) < c that the walker used to build says True; the walker now rejects the tree *)
+Example C13_chain_regression :
+  lark_of chain_toks = Some chain_tree /\
   py_meaning no_fsem chain_env chain_tree = Some (PBool false) /\
-  eval no_fsem chain_env chain_expr = Some (PBool true).
-Proof. exact chain_refuted. Qed.
-Print Assumptions C13_parse_meaning_refuted.
+  eval no_fsem chain_env chain_expr = Some (PBool true) /\
+  parse_tree chain_cfg ["a"; "b"; "c"] chain_tree = Err.
+Proof. exact chain_rejected. Qed.
 
 (* ------------------------------------------------------------------ 2. precedence *)
 (* for EVERY expression AST of the fragment, in EVERY parenthesisation that respects the grammar's levels
@@ -131,9 +127,9 @@ Print Assumptions C13_print_parse_roundtrip_refuted_dunder_call.
 
 (* ------------------------------------------------------------------ non-vacuity *)
 (* the guards of every theorem above hold of   not p and -a ** 2 + b.abs() * (c - 1) < 3   with a = 3, b = -2, c = 5,
-   p = False: well-formed, no chain, parsed to sample_e, printable, both meanings are True *)
+   p = False: well-formed, parsed to sample_e, printable, both meanings are True *)
 Example C13_sample_guards :
-  wfn sample_src = true /\ src_ok sample_src = true /\ no_chain (strip sample_src) = true /\
+  wfn sample_src = true /\ src_ok sample_src = true /\
   parse sample_cfg kdd (unparse sample_src) = Ok sample_e /\ expr_kf_ok sample_e = true /\
   printable sample_cfg kdd sample_e = true /\ is_term sample_e = true /\
   py_meaning concrete_fsem sample_env (strip sample_src) = Some (PBool true) /\
